@@ -479,7 +479,7 @@ def run_other_mode(case, readout, det, tmpdir):
     return {"runs": runs, "op_ok": []}
 
 
-def run_impl(case, det=None):
+def run_impl(case, det=None, shared_tmp=None):
     """-> {"error": kind, "stage": s, "calls": n, "op_ok": [...]} or {"obs": [...], "op_ok": [...], "rp_same": b};
     a history case ({"history": [sub-case …]}) -> {"history": [result of each run, all on ONE detector object]}"""
     import probes
@@ -490,8 +490,13 @@ def run_impl(case, det=None):
     if "history" in case:
         hdet = pyx.make_detector(case.get("detector", "CCD"), 2, 3)
         probes.c02_apply(hdet, [["set", b, k] for b, k in zip(BUCKETS, case["prior"]["tokens"])])
-        return {"history": [run_impl(sub, hdet) for sub in case["history"]]}
-    tmpdir = tempfile.mkdtemp(prefix="c02_")
+        # one folder for the whole history: schedule files of the runs are written to the SAME path, one after the other
+        htmp = tempfile.mkdtemp(prefix="c02h_")
+        try:
+            return {"history": [run_impl(sub, hdet, htmp) for sub in case["history"]]}
+        finally:
+            shutil.rmtree(htmp, ignore_errors=True)
+    tmpdir = shared_tmp or tempfile.mkdtemp(prefix="c02_")
     try:
         reused = det is not None
         det = det or pyx.make_detector(case.get("detector", "CCD"), 2, 3)
@@ -540,7 +545,8 @@ def run_impl(case, det=None):
         out.update({"obs": obs, "rp_same": rp_same})
         return out
     finally:
-        shutil.rmtree(tmpdir, ignore_errors=True)
+        if shared_tmp is None:
+            shutil.rmtree(tmpdir, ignore_errors=True)
 
 
 # ------------------------------------------------------------------ the statement, on the implementation's output
@@ -780,6 +786,29 @@ def gen_history(rng):
     return {"history": subs, "prior": gen_prior(rng), "detector": rng.choice(["CCD", "CMOS", "APD", "MKID"])}
 
 
+def gen_file_rewrite(rng):
+    """rewrite-and-reload history of ONE schedule file in one process: 2-4 schedules of the same length whose text has
+    the same number of bytes (x.0 / x.5 values; .npy files of n values always have the same size) are written to the same
+    path one after the other, without any pause; after each write a Readout is built from the file and run.  Every run
+    is judged against the schedule written last."""
+    n = rng.choice([1, 2, 3, 4])
+    form = rng.choice(["file_txt", "file_txt", "file_csv", "file_npy"])
+    subs, seen = [], set()
+    for _ in range(rng.choice([2, 3, 3, 4])):
+        while True:
+            ts = sorted(rng.sample(range(2, 20), n))  # halves: 1.0 … 9.5, three characters each
+            if tuple(ts) not in seen:
+                seen.add(tuple(ts))
+                break
+        ts = [v / 2.0 for v in ts]
+        start = rng.choice([0.0, 0.25, -1.0, 0.5])
+        sub = base_case(rng, start, ts, nd=rng.random() < 0.5, form=form, plan_len=n)
+        sub["src"] = {"form": form, "values": [tx(t) for t in ts]}
+        sub["prior"] = {"tokens": [], "earlier": None}
+        subs.append(sub)
+    return {"history": subs, "prior": gen_prior(rng), "detector": rng.choice(["CCD", "CMOS", "MKID"]), "file_rewrite": form}
+
+
 def build_cases(rng, tier):
     k = 1 if tier == "quick" else 12
     cases = []
@@ -803,6 +832,8 @@ def build_cases(rng, tier):
         cases.append(("valid", gen_tiny_dyadic(rng)))
     for _ in range(30 * k):
         cases.append(("history", gen_history(rng)))
+    for _ in range(14 * k):
+        cases.append(("file-rewrite", gen_file_rewrite(rng)))
     for _ in range(25 * k):
         c = gen_valid(rng)
         c["plan"] = gen_plan(rng, len(c["plan"]), nonfinite=0.25)
